@@ -1,14 +1,15 @@
 import os, sys
 sys.path.insert(0, os.path.dirname(os.path.abspath(__file__)))
 import pathmgr_common
+KNOWN = {16: "C06-backoff-outlasts-threshold"}
 SPEC = {
     "id": "C06",
     "coq_targets": ["theories/PathMgr/Props_C06.vo", "theories/PathMgr/Findings.vo", "theories/PathMgr/Cases.vo"],
     "props": "theories/PathMgr/Props_C06.v",
-    "harness": [{"bin": "h_pathmgr", "n": {"quick": 330, "thorough": 6000}, "args": ["--prop", "C06"]},
+    "harness": [{"bin": "h_pathmgr", "n": {"quick": 330, "thorough": 6000}, "args": ["--prop", "C06"], "known_bits": KNOWN},
                 # the hand-out defect was visible only without debug assertions: same histories, release profile
-                {"bin": "h_pathmgr", "n": {"quick": 90, "thorough": 2000}, "args": ["--prop", "C06"], "release": True}],
-    "rule": "event histories on one real PathSet + PathIssueManager (verif-hooks probe), debug and release profile: directed histories (expiry between two ticks under failing lookups / under lookups returning the same path, refresh with an already expired path, one issue re-reported outside the dedup window, distinct issues beyond the cache size, max_cached 0), enumerated and random histories with clock deltas {0,1,d-1,d,d+1} for d in thresholds, expiries and backoff steps, configurations from the validator's boundary (rejected ones included); oracles on the implementation's observations: handed-out path not expired, cache size, issue map and FIFO size, refetch window, no panic",
+                {"bin": "h_pathmgr", "n": {"quick": 90, "thorough": 2000}, "args": ["--prop", "C06"], "release": True, "known_bits": KNOWN}],
+    "rule": "event histories on one real PathSet + PathIssueManager (verif-hooks probe), debug and release profile: directed histories (expiry between two ticks under failing lookups / under lookups returning the same path, refresh with an already expired path, one issue re-reported outside the dedup window, distinct issues beyond the cache size, max_cached 0), enumerated and random histories with clock deltas {0,1,d-1,d,d+1} for d in thresholds, expiries and backoff steps, configurations from the validator's boundary (rejected ones included); oracles on the implementation's observations: handed-out path not expired, cache size, issue map and FIFO size, refetch window, no panic, and on timely stretches (send not later than the next due tick) no 'no path' answer while a cached path is valid",
     "assumptions": ["hand-out instants before 2^32 s (the code truncates now to u32 seconds)",
                     "backoff parameters non-negative and finite (Duration::from_secs_f32 panics otherwise; not checked by the validator)",
                     "durations small enough that SystemTime + Duration does not overflow",
